@@ -4,7 +4,8 @@ C(nm) == [name |-> nm, old |-> FALSE]
 O(nm) == [name |-> nm, old |-> TRUE]
 CS1 == { <<C("TRBV"), C("CDR3B")>>, <<O("TRBV"), C("CDR3B"), C("clone")>>, <<C("Epitope"), C("MHCA"), O("CDR3A")>>, <<C("TRAJ"), C("x")>>,
          <<C("MHCA"), C("TRBV"), C("TRBJ")>>,           \* an MHC column next to beta-chain genes (their precision options differ)
-         <<C("CDR3A"), C("TRAJ")>>, <<C("TRBJ"), C("CDR3B")>> }     \* a junction next to the J gene of its own chain (cells stay independent)
+         <<C("CDR3A"), C("TRAJ")>>, <<C("TRBJ"), C("CDR3B")>>,
+         <<O("TRBV"), O("TRBJ")>> }     \* a junction next to the J gene of its own chain (cells stay independent)
 CS9 == { <<C("TRAV"), C("CDR3A"), C("TRAJ"), C("TRBV"), C("CDR3B"), C("TRBJ"), C("Epitope"), C("MHCA"), C("MHCB")>> }     \* all nine standard columns
 CS2 == CS1 \cup { <<C("TRAV"), C("CDR3A"), C("TRAJ"), C("TRBV"), C("CDR3B"), C("TRBJ"), C("Epitope"), C("MHCA"), C("MHCB")>> }
 EmitCase == Done => PrintT(ToJson([kind |-> kind, obj |-> obj, tab |-> IF kind = "merge" THEN [i \in 1..Len(tab) |-> SetToSeq({ <<k, tab[i][k]>> : k \in DOMAIN tab[i] })] ELSE tab,
